@@ -47,14 +47,36 @@ type c16Case struct {
 	Resumed bool `json:"resumed,omitempty"`
 	// RecvClient: the server sends, the client (with the configured window) receives
 	RecvClient bool `json:"recvclient,omitempty"`
+	// Storm: that many copies of payload 1 whose last 16 bytes (with a CBC suite: the block that holds
+	// only padding) are overwritten with different values arrive after the first schedule item
+	Storm int `json:"storm,omitempty"`
 	Sched []c16Item `json:"sched"`
 }
 
-func c16Payload(i int) []byte { return []byte(fmt.Sprintf("payload-%04d", i)) }
+// 16 bytes: with the 32-byte MAC a CBC record then ends in a whole block of padding
+func c16Payload(i int) []byte { return []byte(fmt.Sprintf("payload-%08d", i)) }
+
+// expand inserts the Storm forged copies of payload 1 (last cipher block overwritten) behind the first item.
+func (c c16Case) expand() c16Case {
+	if c.Storm > 0 {
+		var s []c16Item
+		for i, it := range c.Sched {
+			s = append(s, it)
+			if i == 0 {
+				for k := 0; k < c.Storm; k++ {
+					s = append(s, c16Item{Idx: 1, Kind: "lastblock", Pos: k, Mask: byte(k >> 8)})
+				}
+			}
+		}
+		c.Sched, c.Storm = s, 0
+	}
+	return c
+}
 
 // c16Deliver runs the schedule (optionally without its forgeries) and returns what the receiver's
 // application got, in order.
 func c16Deliver(c c16Case, withForgeries bool) (got [][]byte, seqs []uint64, firstErr error, sig, msg string) {
+	c = c.expand()
 	ccfg, scfg := vfBaseConfigs(c.Suite, false)
 	si, ri := 0, 1 // sender, receiver
 	if c.RecvClient {
@@ -131,6 +153,14 @@ func c16Deliver(c c16Case, withForgeries bool) (got [][]byte, seqs []uint64, fir
 					d[1], d[2] = 0xfe, 0xfd
 				} else {
 					d[1+it.Pos%4/2] ^= it.Mask | 1
+				}
+			case "lastblock":
+				// the last 16 bytes overwritten (no key needed): with a CBC suite and a payload that fills its
+				// blocks this is the block holding nothing but padding
+				if len(d) >= 13+32 {
+					for j := 0; j < 16; j++ {
+						d[len(d)-16+j] = byte(vfHash("lastblock", it.Pos, int(it.Mask), j))
+					}
 				}
 			case "short":
 				// a datagram shorter than a record header
@@ -272,6 +302,7 @@ func refKeysOfTapsD(sim *vfDSim, cache *vfCapCache) (refKeys, error) {
 }
 
 func c16Check(c c16Case) (sig, msg string, nontrivial bool) {
+	c = c.expand()
 	got, seqs, ferr, sig, msg := c16Deliver(c, true)
 	if sig != "" {
 		return sig, msg, false
@@ -351,7 +382,7 @@ func c16Check(c c16Case) (sig, msg string, nontrivial bool) {
 }
 
 func TestVF_C16_Conn(t *testing.T) {
-	rec := vfRec("C16", "C16b-connection", "established connection (full or resumed handshake; the client or the server receiving); the sender emits N unique payloads which the harness holds back and then delivers according to a generated schedule of originals, duplicates, late replays, reorderings, body bit flips, altered version / epoch / sequence / length header fields, datagrams shorter than a record header, records sealed under the wrong direction's key and garbage records, one record per datagram or (receiver reading with Read) two in one datagram; receiver through ReadFrom, through Read, and mixed (short Read, ReadFrom, rest through Read); window sizes 0 (default), 32, 64, 128 and the odd values 1, 8, 31, 33, 65, -5; both cipher modes; the sender's sequence number starting at 1, 250, 65530, 2^32-5, 2^32+7, 2^40 or 2^48-300; oracle: delivered subset of sent, at most once, forgeries never delivered, fresh genuine records within the guaranteed window delivered, same deliveries with and without the forgeries; non-trivial = schedule with a duplicate, a replay or a forgery; distinct = the case")
+	rec := vfRec("C16", "C16b-connection", "established connection (full or resumed handshake; the client or the server receiving); the sender emits N unique payloads which the harness holds back and then delivers according to a generated schedule of originals, duplicates, late replays, reorderings, body bit flips, altered version / epoch / sequence / length header fields, datagrams shorter than a record header, the last cipher block overwritten (singly, and 1500 times for a CBC record that ends in a block of padding), records sealed under the wrong direction's key and garbage records, one record per datagram or (receiver reading with Read) two in one datagram; receiver through ReadFrom, through Read, and mixed (short Read, ReadFrom, rest through Read); window sizes 0 (default), 32, 64, 128 and the odd values 1, 8, 31, 33, 65, -5; both cipher modes; the sender's sequence number starting at 1, 250, 65530, 2^32-5, 2^32+7, 2^40 or 2^48-300; oracle: delivered subset of sent, at most once, forgeries never delivered, fresh genuine records within the guaranteed window delivered, same deliveries with and without the forgeries; non-trivial = schedule with a duplicate, a replay or a forgery; distinct = the case")
 	vfRapid(t, rec, "schedules", vfN(300, 6000), func(t *rapid.T) {
 		c := c16Case{Suite: rapid.SampledFrom([]uint16{ECC_SM4_GCM_SM3, ECC_SM4_CBC_SM3}).Draw(t, "suite"), Window: rapid.SampledFrom([]int{0, 32, 64, 128, 1, 8, 31, 33, 65, -5}).Draw(t, "window"),
 			N: rapid.SampledFrom([]int{3, 8, 40, 100}).Draw(t, "n"), ReadFrom: rapid.Bool().Draw(t, "readfrom"), Mixed: rapid.IntRange(0, 3).Draw(t, "mixed") == 0,
@@ -364,7 +395,7 @@ func TestVF_C16_Conn(t *testing.T) {
 		n := rapid.IntRange(1, 2*c.N+4).Draw(t, "len")
 		cursor := 0
 		for i := 0; i < n; i++ {
-			it := c16Item{Kind: rapid.SampledFrom([]string{"orig", "orig", "orig", "orig", "orig", "flip", "epoch", "seq", "ver", "ver", "short", "len", "wrongkey", "garbage"}).Draw(t, "kind")}
+			it := c16Item{Kind: rapid.SampledFrom([]string{"orig", "orig", "orig", "orig", "orig", "flip", "epoch", "seq", "ver", "ver", "short", "len", "lastblock", "wrongkey", "garbage"}).Draw(t, "kind")}
 			switch rapid.IntRange(0, 4).Draw(t, "which") {
 			case 0, 1: // next in order
 				it.Idx = cursor
@@ -420,6 +451,22 @@ func TestVF_C16_Conn(t *testing.T) {
 				}
 				rec.Eval(true, c, "directed-jump")
 			}
+		}
+	}
+	// CBC: 1500 forged copies of a record whose last block (only padding) is overwritten, the genuine copy
+	// never arrives: nothing of it may be delivered
+	for _, suite := range []uint16{ECC_SM4_CBC_SM3, ECDHE_SM4_CBC_SM3} {
+		for _, rf := range []bool{true, false} {
+			idx++
+			if !vfMine(idx) {
+				continue
+			}
+			c := c16Case{Suite: suite, N: 3, ReadFrom: rf, Storm: 1500, Sched: []c16Item{{Idx: 0, Kind: "orig"}, {Idx: 2, Kind: "orig"}}}
+			sig, msg, _ := c16Check(c)
+			if sig != "" {
+				rec.Violation(sig, c, "%s", msg)
+			}
+			rec.Eval(true, c, "padding-block-storm")
 		}
 	}
 	if vfKnown("F14") {
